@@ -53,6 +53,7 @@ def stages():
         "total_power": (lambda: K.TotalPowerConstraint(2.0), True, True, "gradcheck"),
         "average_power": (lambda: K.AveragePowerConstraint(1.5), True, True, "gradcheck"),
         "per_antenna_power": (lambda: K.PerAntennaPowerConstraint(uniform_power=0.7), True, True, "gradcheck"),
+        "per_antenna_budget": (lambda: K.PerAntennaPowerConstraint(power_budget=torch.tensor([0.5, 1.0, 2.0])), True, True, "gradcheck"),
         "papr": (lambda: K.PAPRConstraint(max_papr=3.0), True, True, "gradcheck_papr"),
         # tighter and looser limits reach other phases of the iterative clipping
         "papr_1.2": (lambda: K.PAPRConstraint(max_papr=1.2), True, True, "gradcheck_papr"),
@@ -172,18 +173,20 @@ def unit_grads(ctx, names):
         fac, c_ok, r_ok, mode = S[name]
         for cplx in ([False] if not c_ok else [True] if not r_ok else [False, True]):
             shapes = [(3, 2, 6)] if name == "per_antenna_power" else [(12,), (3, 8)]
+            if name == "per_antenna_budget":
+                shapes = [(2, 3, 6), (2, 3, 4, 5), (1, 3, 3, 4)]  # [B, A, T] and [B, A, H, W] latents (H != A, H == A)
             if name.startswith("ray") or name.startswith("ric"):
                 shapes = [(10,), (2, 9)]
             extra_seeds = range(5) if ctx.tier == "thorough" else range(1)
             if name.startswith("papr"):
                 shapes = [(12,), (3, 8), (24,), (1, 24)]
                 extra_seeds = range(6) if ctx.tier == "thorough" else range(2)
-            for shape in shapes + ([(2, 3, 4, 5)] if (ctx.tier == "thorough" and name != "per_antenna_power") else []):
+            for shape in shapes + ([(2, 3, 4, 5)] if (ctx.tier == "thorough" and name not in ("per_antenna_power", "per_antenna_budget")) else []):
                 for scale in (0.3, 1.0, 5.0) if mode != "gradcheck_peak" else (1.0,):
                     for es in extra_seeds:
                         check_grad(ctx, None, {"stage": name, "complex": cplx, "shape": list(shape), "scale": scale, "seed": ctx.seed + 1000 * es})
-            if name in ("total_power", "average_power", "per_antenna_power", "peak_amplitude") or name.startswith("papr"):
-                zshape = (3, 2, 6) if name == "per_antenna_power" else (3, 8)
+            if name in ("total_power", "average_power", "per_antenna_power", "per_antenna_budget", "peak_amplitude") or name.startswith("papr"):
+                zshape = (3, 2, 6) if name == "per_antenna_power" else (3, 3, 6) if name == "per_antenna_budget" else (3, 8)
                 check_grad(ctx, {"stage": name, "dtype": "complex" if cplx else "real", "mode": "zero_item_in_batch"},
                            {"stage": name, "complex": cplx, "shape": list(zshape), "scale": 1.0, "seed": ctx.seed, "zero_item": True})
     ctx.sample({"stages": names, "method": "gradcheck eps=1e-6 / central differences eps=1e-2, RNG re-seeded before every call"})
